@@ -29,7 +29,7 @@ def run(rep, tier):
     rep.rule("R18.4", "IndexParser: CreateIndexVector and CreateIndexString both normalise through std::set<Index>; 'a:b' expands with <= b; runs are printed first:last only for consecutive values")
     rep.rule("R18.5", "BeadList::Generate*: 'name:' prefix selects getName(), otherwise getType(), both through tools::wildcmp(pattern, value)")
     host = os.path.join(front.VERIF, "hosts", "tools_rangeparser.cc")
-    units = [front.repo("tools/src/libtools/rangeparser.cc"), host, front.repo("xtp/src/libxtp/IndexParser.cc"), front.repo("csg/src/libcsg/beadlist.cc")]
+    units = [front.repo("tools/src/libtools/rangeparser.cc"), front.repo("tools/src/libtools/tokenizer.cc"), host, front.repo("xtp/src/libxtp/IndexParser.cc"), front.repo("csg/src/libcsg/beadlist.cc")]
     F = Facts(front.export(units))
     rep.units = units
     RP = T + "RangeParser::"
@@ -205,8 +205,58 @@ def run(rep, tier):
         oks = any(re.search(r"select\.substr\(5(,npos)?\)$", nows(show(x["args"][1]))) for x in sub) and any(nows(show(x["args"][1])) == "select" for x in sub)
         rep.check(ok and okp and oks, "R18.5", "selection|" + f.qname.split("::")[-1], "name: -> wildcmp(pattern, getName()); else wildcmp(pattern, getType())",
                   "%s: selection table is %s (prefix test ok: %s, pattern extraction ok: %s)" % (f.qname, table, okp, oks), f.loc(), sample=True)
+    check_wildcmp(rep, F)
     rep.assumptions += ["tools::wildcmp's back-tracking matcher is not decided statically (needs exhaustive comparison with a reference matcher)",
                         "std::stoi's own input validation ('malformed expressions are rejected') is trusted"]
+
+
+def check_wildcmp(rep, F):
+    """conditional rule: IF wildcmp is the single-restart-point back-tracking matcher (pattern pointer rewound to a position saved at
+    the last '*'), THEN the branch that rewinds the pattern must also rewind the string pointer to one past the start of the failed
+    attempt.  A different matching algorithm yields no obligation (the glob semantics as a whole are not decided statically)."""
+    rep.rule("R18.6", "wildcmp (if it is the restart-point back-tracking matcher): where the pattern pointer is rewound to the position saved at the last '*', "
+                      "the string pointer is rewound to a saved restart point that was set to string+1 at the '*' and advances by one per failed attempt")
+    fs = [f for f in F.find(T + "wildcmp") if "const char *" in f.j["sig"]]
+    if len(fs) != 1:
+        rep.broken("R18.6", "wildcmp(const char*, const char*) not found")
+        return
+    f = fs[0]
+    rep.analysed(f)
+    W, Sx = f.j["params"][0], f.j["params"][1]
+    asg = [n for n in f.walk() if n.get("k") == "assign" and n["op"] == "="]
+    saved = {}      # local decl -> 'pattern' if assigned from the pattern pointer
+    for n in asg:
+        l, r_ = unwrap(n["lhs"]), unwrap(n["rhs"])
+        if l.get("k") == "ref" and l.get("dk") == "local" and r_.get("k") == "ref" and r_.get("decl") == W["decl"]:
+            saved[l["decl"]] = n
+    rewinds = [n for n in asg if unwrap(n["lhs"]).get("decl") == W["decl"] and unwrap(n["rhs"]).get("decl") in saved]
+    if not rewinds:
+        rep.holds("R18.6", "wildcmp|scheme", "wildcmp is not a restart-point back-tracking matcher: no obligation (semantics not decided)", f.loc())
+        return
+    for k, rw in enumerate(rewinds):
+        comp = next(a for a in f.ancestors(rw) if a.get("k") == "compound")
+        s_asg = [n for n in walk(comp) if n.get("k") == "assign" and n["op"] == "=" and unwrap(n["lhs"]).get("decl") == Sx["decl"]]
+        key = "wildcmp|rewind#%d" % k
+        if not s_asg:
+            rep.violation("R18.6", key, "wildcmp rewinds the pattern to the position saved at the last '*' but leaves the string pointer where the failed partial match "
+                          "stopped: the next attempt does not start one past the previous one, so matches that overlap a failed partial match are missed "
+                          "(e.g. '*aa' against 'aaa')", f.loc(rw))
+            continue
+        src = unwrap(s_asg[0]["rhs"])
+        inc_inline = src.get("k") == "unop" and src.get("op") == "++" and src.get("postfix")
+        cp = unwrap(src["sub"]) if inc_inline else src
+        if cp.get("k") != "ref" or cp.get("dk") != "local":
+            rep.holds("R18.6", key, "string rewound by an expression the rule does not interpret (%s): not decided" % show(src), f.loc(rw))
+            continue
+        # restart pointer protocol: set to string+1 in the '*' branch (where the pattern position is saved), advanced by one here
+        sets = [n for n in asg if unwrap(n["lhs"]).get("decl") == cp["decl"]]
+        set_ok = any(nows(show(n["rhs"])) in ("(%s+1)" % Sx["name"], "(1+%s)" % Sx["name"]) and
+                     any(any(x.get("id") == sv["id"] for x in walk(a)) for sv in saved.values() for a in [next(b for b in f.ancestors(n) if b.get("k") == "compound")])
+                     for n in sets)
+        adv = inc_inline or any(x.get("k") == "unop" and x.get("op") == "++" and unwrap(x["sub"]).get("decl") == cp["decl"] for x in walk(comp))
+        rep.check(set_ok and adv, "R18.6", key, "string = restart; restart advances by one; restart = string+1 at '*'",
+                  "wildcmp restart-point protocol broken: restart pointer %s is %s at the '*' and %s after a failed attempt" % (
+                      cp.get("name"), "set to string+1" if set_ok else "NOT set to string+1", "advanced" if adv else "NOT advanced"), f.loc(rw), sample=True)
 
 
 def lit_str(n):
